@@ -15,7 +15,7 @@ ID = "C14"
 RULE = (
     "Model = the result of an isolated fresh run that requests one observable at one kinematic point. Hypothesis draws a "
     "theory (scheme, PTO 0-2, TMC in {0,1,2,3}, scale variations), a target (proton, neutron, iron, lead, isoscalar, generated Z/A), a pool of 2-5 kinematic points built to collide with "
-    "the internal caches (repeated Q2 values, x on grid nodes, x equal to the Nachtmann xi of another point, x equal to a "
+    "the internal caches (repeated Q2 values, the float next to another point's x or Q2, x on grid nodes, x equal to the Nachtmann xi of another point, x equal to a "
     "Q2 value, duplicates, both key orders of the kinematics dict) and a history: an ordered list of observables sharing "
     "caches (F2/FL/F3 of one or two heavynesses and the cross sections built from them), each with an ordered list of "
     "points, followed by 1-3 get_result calls on the same Runner (in half of the histories the caller overwrites, in place, every array of the output it was handed before asking again). Every returned ESFResult/EXSResult (order keys and their "
@@ -28,7 +28,7 @@ ASSUMPTIONS = [
 ]
 BUDGET = {"quick": {"examples": 800, "wall": 420, "min_evaluations": 200}, "thorough": {"examples": 6000, "wall": 2400, "min_evaluations": 1500}}
 MANDATORY = {
-    t: ["nontrivial", "tmc:on", "tmc:off", "target:other", "process:CC", "xs", "duplicate-point", "repeated-q2", "rerun", "x-is-xi", "x-on-node", "two-heavyness", "key-order:Q2-first", "caller-overwrites-returned-results"]
+    t: ["nontrivial", "tmc:on", "tmc:off", "target:other", "process:CC", "xs", "duplicate-point", "repeated-q2", "rerun", "x-is-xi", "x-on-node", "two-heavyness", "key-order:Q2-first", "caller-overwrites-returned-results", "ulp-neighbour-of-another-point"]
     for t in ("quick", "thorough")
 }
 SHRINK = {"quick": False, "thorough": True}
@@ -55,6 +55,8 @@ def cases(draw, tier="quick"):
     if tgt == "ZA":
         a = round(draw(st.floats(1.0, 240.0)), 3)
         tgt = {"Z": round(draw(st.floats(0.0, 1.0)) * a, 3), "A": a}
+        if draw(st.booleans()):
+            tgt = {"A": tgt["A"], "Z": tgt["Z"]}  # key order as after a YAML round trip
     ob["TargetDIS"] = tgt
     if process != "CC" and draw(st.integers(0, 3)) == 0:
         ob["NCPositivityCharge"] = draw(st.sampled_from(["up", "down", "charm"]))
@@ -67,8 +69,14 @@ def cases(draw, tier="quick"):
     npool = draw(st.integers(2, 5))
     for i in range(npool):
         q2 = draw(st.sampled_from(q2s))
-        kind = draw(st.sampled_from(["interior", "node", "xi", "q2"]))
-        if kind == "node":
+        kind = draw(st.sampled_from(["interior", "node", "xi", "q2", "ulp"]))
+        if kind == "ulp" and pool:
+            # the float next to an earlier point (in x, in Q2 or in both): a different point, however close
+            p0 = pool[draw(st.integers(0, len(pool) - 1))]
+            sx, sq = draw(st.sampled_from([(1, 0), (0, 1), (0, -1), (1, 1), (-1, 0)]))
+            x = math.nextafter(p0["x"], math.inf if sx > 0 else 0.0) if sx else p0["x"]
+            q2 = math.nextafter(p0["Q2"], math.inf if sq > 0 else 0.0) if sq else p0["Q2"]
+        elif kind == "node":
             x = g[draw(st.integers(1, len(g) - 2))]
         elif kind == "xi" and pool:
             x0 = pool[draw(st.integers(0, len(pool) - 1))]["x"]
@@ -166,6 +174,8 @@ def check_case(case):
             v.label("x-is-xi")
         if pool[i]["kind"] == "node":
             v.label("x-on-node")
+        if pool[i]["kind"] == "ulp":
+            v.label("ulp-neighbour-of-another-point")
     if case["calls"] > 1:
         v.label("rerun")
     with warnings.catch_warnings():
